@@ -1,5 +1,12 @@
 # id -> (technique, level_claimed.text, design_ref)
 CLAIMED = {
+    "C13": (
+        "type-resolved alphabet/wildcard lint, SSA value-provenance rules for the comparison key and the re-added row, map-key identity and per-iteration event counting for the group bookkeeping, counter-width and exactly-once rules for the pattern counters, variable-identity rule for weight/column index and truncation/length",
+        "Decides statically the structural clauses of C13 for every sequence set and alignment. Deduplicate: the comparison key is the row with the wildcard of the bag's own alphabet replaced by the gap (or the row itself), the row re-added is the unfolded original under its own name and comment, the key used to look a group up is the key it is recorded under, "
+        "the arm that re-adds a row opens a new group and records its index len(groups)-1, the other arm appends the name to the group found, exactly one of the two per row, rows are visited in the order of the list saved before Clear(). Compress: every site executes exactly one count++ (type int, no narrowing on the way to the weight) and one Insert under the looked-up key, "
+        "npat++ with a zero counter exactly when the pattern is new (so weights are exact multiplicities summing to the length), weights has npat entries, the weight index and the rewritten column index are the same variable advanced once per pattern, rows are truncated to npat and the cached length set to the same variable. "
+        "NOT decided: first-occurrence order and idempotence on data, that the radix tree keeps distinct patterns distinct (library), the order of Walk relative to original column order.",
+        "DESIGN.md §3 C13"),
     "C10": (
         "linear-bounds proofs for every drawn index (facts 0 <= Intn(n) <= n-1, element ranges of Perm and of slices filled with draws, propagated through re-slices and phis), draw-range exactness by linear-form equality (container length, window width, Fisher-Yates partner), value-provenance rules for residue stores, who-may-call table for random sources, call-graph reachability of RNG from goroutines, map-range classifier",
         "Decides statically the support, frame and replay clauses of C10 for the ten randomised operations (BuildBootstrap, RandSubAlign, Recombine, Swap, ShuffleSites, SimulateRogue, Mutate, AddGaps, ShuffleSequences, sampleSeqBag) and every alignment and seed: every row, row-list and alphabet-table index computed from a draw is within bounds on every path "
